@@ -29,6 +29,9 @@ def h_gen(c):
         kw["cheb_samples"] = int(c["cheb_samples"])
     if "return_coef" in c:
         kw["return_coef"] = bool(c["return_coef"])      # False: cos / sin / 1/x hand back the Chebyshev series object
+    for k, tname in (c.get("arg_types") or {}).items():
+        if k in kw:
+            kw[k] = getattr(numpy, tname)(kw[k])       # the argument held as a numpy scalar (np.int64(12), np.int32(37), np.float64(...)) - same value
     if c.get("float_degree") and "degree" in kw:
         kw["degree"] = float(kw["degree"])          # the command line hands every number over as a float (20 -> 20.0)
     out = getattr(P, cls)(**(c.get("ctor") or {})).generate(**kw)
